@@ -480,6 +480,58 @@ fn gen_lines(rng: &mut Rng, n: u64, lines: &mut Vec<String>) {
 		&["{\"code\":-32000,\"message\":\"m\"}", "null", "{\"code\":1,\"message\":\"m\",\"data\":null}", "{\"code\":1}", "{\"code\":1,\"message\":\"m\",\"z\":1}", "[1,\"m\",null]", "{\"code\":1.0,\"message\":\"m\"}"],
 		&["1", "{}"],
 	];
+	// exhaustive part (independent of the seed): every sequence of up to 4 members with the first value of
+	// each class, and every sequence of 2..3 members with each member's value ranging over the first three
+	// values of its class — all subsets, orders and duplications, incl. duplicates whose first occurrence is null
+	{
+		fn emit(lines: &mut Vec<String>, names: &[&str; 5], vals: &[&[&str]; 5], seq: &[(usize, usize)]) {
+			let parts: Vec<String> = seq.iter().map(|(i, j)| format!("\"{}\":{}", names[*i], vals[*i][*j])).collect();
+			lines.push(format!("resp_dec {}", hexs(&format!("{{{}}}", parts.join(",")))));
+		}
+		for len in 1..=4usize {
+			let mut idx = vec![0usize; len];
+			loop {
+				let seq: Vec<(usize, usize)> = idx.iter().map(|i| (*i, 0)).collect();
+				emit(lines, &names, &vals, &seq);
+				let mut k = 0;
+				while k < len {
+					idx[k] += 1;
+					if idx[k] < 5 { break; }
+					idx[k] = 0;
+					k += 1;
+				}
+				if k == len { break; }
+			}
+		}
+		for len in 2..=3usize {
+			let mut idx = vec![0usize; len];
+			loop {
+				let mut vj = vec![0usize; len];
+				loop {
+					if vj.iter().any(|j| *j > 0) {
+						let seq: Vec<(usize, usize)> = idx.iter().zip(vj.iter()).map(|(i, j)| (*i, (*j).min(vals[*i].len() - 1))).collect();
+						emit(lines, &names, &vals, &seq);
+					}
+					let mut k = 0;
+					while k < len {
+						vj[k] += 1;
+						if vj[k] < 3 { break; }
+						vj[k] = 0;
+						k += 1;
+					}
+					if k == len { break; }
+				}
+				let mut k = 0;
+				while k < len {
+					idx[k] += 1;
+					if idx[k] < 5 { break; }
+					idx[k] = 0;
+					k += 1;
+				}
+				if k == len { break; }
+			}
+		}
+	}
 	for _ in 0..n {
 		match rng.below(16) {
 			0 => lines.push(format!("code {}", rng.next() as i32)),
